@@ -21,7 +21,7 @@ let content_tok (c : n list) : string =
 
 (* the deterministic blobs of the N: token (harness/lib GenBlob / BlobSpec) *)
 let gen_blob (n : int) (seed : int) : n list =
-  List.init n (fun i -> byte_tab.((seed * 31 + i * 7 + (i lsr 8) * 13) mod 251))
+  List.init n (fun i -> byte_tab.((seed * 31 + i * 7 + (i lsr 8) * 13) land 255))
 let blob_spec (spec : string) : n list =
   List.concat (List.map (fun part ->
       match String.split_on_char '.' part with
@@ -220,9 +220,61 @@ let oracle (store : string) (cfg : fscfg) (ops : op list) (impl : string list) :
    with Exit -> ());
   if !fails = [] then "ok" else "fail:" ^ String.concat "," (List.rev !fails)
 
+(* ---- the LARGE-BLOCK cases (stores Lmem / Lcidmem / Lfs): the map specification on native strings.
+   For these histories (one-operation puts, plain keys, one content per key) C17_refines and
+   C17_refines_fs prove that the extracted models answer exactly as the specification, whatever the
+   block size; evaluating the specification directly avoids building multi-MiB Coq lists. ---- *)
+let gen_blob_s (n : int) (seed : int) : string =
+  Bytes.to_string (Bytes.init n (fun i -> Char.unsafe_chr ((seed * 31 + i * 7 + (i lsr 8) * 13) land 255)))
+let blob_spec_s (spec : string) : string =
+  String.concat "" (List.map (fun part ->
+      match String.split_on_char '.' part with
+      | [l; sd] -> gen_blob_s (int_of_string l) (int_of_string sd)
+      | _ -> "") (String.split_on_char '+' spec))
+let hex_of_string (s : string) : string =
+  let b = Buffer.create (2 * String.length s) in
+  String.iter (fun c -> Buffer.add_string b hex_tab.(Char.code c)) s; Buffer.contents b
+let content_tok_s (c : string) : string =
+  if String.length c <= 2048 then hex_of_string c
+  else "B" ^ string_of_int (String.length c) ^ ":" ^ Digest.to_hex (Digest.string c)
+
+let large_spec (store : string) (optoks : string list) : string =
+  let full = store <> "Lcidmem" in
+  let notfound = if store = "Lfs" then "e:enoent" else "e:e404" in
+  let hnd = ref [||] in
+  let push c = hnd := Array.append !hnd [| c |] in
+  let map : (string, string) Hashtbl.t = Hashtbl.create 16 in
+  let tokc : (string, string) Hashtbl.t = Hashtbl.create 16 in   (* content -> token, computed once *)
+  let tok_of c = match Hashtbl.find_opt tokc c with
+    | Some t -> t | None -> let t = content_tok_s c in Hashtbl.replace tokc c t; t in
+  let handle h = let i = int_of_string h in if i >= 0 && i < Array.length !hnd then Some !hnd.(i) else None in
+  let gather hs =
+    let l = if hs = "" then [] else List.map handle (String.split_on_char ',' hs) in
+    if List.mem None l then None else Some (String.concat "" (List.map (function Some c -> c | None -> "") l)) in
+  let put k c = if not (Hashtbl.mem map k) then Hashtbl.replace map k c in
+  let out = List.map (fun t ->
+      match String.split_on_char ':' t with
+      | ["N"; spec] -> push (blob_spec_s spec); "-"
+      | ["n"; hx] -> push (let l = bytes_of_hex hx in String.concat "" (List.map (fun x -> String.make 1 (Char.chr (int_of_n x))) l)); "-"
+      | ["R"; _] -> "-"
+      | ["p"; k; h] -> (match handle h with Some c -> put k c; "ok" | None -> "badh")
+      | ["s"; k; hs] -> (match gather hs with Some c -> put k c; "ok" | None -> "badh")
+      | ["v"; k; hs] -> if not full then "unsup" else (match gather hs with Some c -> put k c; "ok" | None -> "badh")
+      | ["g"; k] -> (match Hashtbl.find_opt map k with Some c -> push c; "b:" ^ tok_of c | None -> notfound)
+      | ["r"; k] -> if not full then "unsup" else (match Hashtbl.find_opt map k with Some c -> "b:" ^ tok_of c | None -> notfound)
+      | ["k"; k] -> if not full then "unsup" else (match Hashtbl.find_opt map k with Some c -> push c; "b:" ^ tok_of c | None -> notfound)
+      | ["h"; k] -> if not full then "unsup" else (if Hashtbl.mem map k then "t" else "f")
+      | _ -> "badop") optoks in
+  String.concat " " out
+
 let () =
   iter_lines (fun line ->
       match split_tab line with
+      | id :: store :: _config :: opstext :: rest when String.length store > 0 && store.[0] = 'L' ->
+        let obs = match rest with o :: _ -> o | [] -> "" in
+        let expected = large_spec store (List.filter (fun x -> x <> "") (String.split_on_char ' ' opstext)) in
+        let verdict = if obs = expected then "ok" else "fail:large_block" in
+        print_string id; print_char '\t'; print_string expected; print_char '\t'; print_endline verdict
       | id :: store :: config :: opstext :: rest ->
         let obs = match rest with o :: _ -> o | [] -> "" in
         let ops = List.filter_map parse_op (List.filter (fun x -> x <> "") (String.split_on_char ' ' opstext)) in
